@@ -2,10 +2,22 @@ use crate::client::Client;
 use crate::error::RepeError;
 use crate::message::Message;
 use serde_json::Value;
+#[cfg(repe_verif)]
+use crate::verif_seam::collections::{BTreeSet, HashMap, HashSet};
+#[cfg(repe_verif)]
+use crate::verif_seam::sync::{Arc, Mutex, MutexGuard, RwLock};
+#[cfg(repe_verif)]
+use crate::verif_seam::thread;
+#[cfg(repe_verif)]
+use crate::verif_seam::time::{Duration, Instant};
+#[cfg(not(repe_verif))]
 use std::collections::{BTreeSet, HashMap, HashSet};
 use std::fmt::{Display, Formatter};
+#[cfg(not(repe_verif))]
 use std::sync::{Arc, Mutex, MutexGuard, RwLock};
+#[cfg(not(repe_verif))]
 use std::thread;
+#[cfg(not(repe_verif))]
 use std::time::{Duration, Instant};
 
 const DEFAULT_TIMEOUT: Duration = Duration::from_secs(30);
@@ -775,6 +787,27 @@ fn lock_node_client(client: &Mutex<Option<Client>>) -> MutexGuard<'_, Option<Cli
     }
 }
 
+#[cfg(repe_verif)]
+fn read_nodes(
+    nodes: &Arc<RwLock<HashMap<String, Arc<NodeState>>>>,
+) -> crate::verif_seam::sync::RwLockReadGuard<'_, HashMap<String, Arc<NodeState>>> {
+    match nodes.read() {
+        Ok(guard) => guard,
+        Err(poisoned) => poisoned.into_inner(),
+    }
+}
+
+#[cfg(repe_verif)]
+fn write_nodes(
+    nodes: &Arc<RwLock<HashMap<String, Arc<NodeState>>>>,
+) -> crate::verif_seam::sync::RwLockWriteGuard<'_, HashMap<String, Arc<NodeState>>> {
+    match nodes.write() {
+        Ok(guard) => guard,
+        Err(poisoned) => poisoned.into_inner(),
+    }
+}
+
+#[cfg(not(repe_verif))]
 fn read_nodes(
     nodes: &Arc<RwLock<HashMap<String, Arc<NodeState>>>>,
 ) -> std::sync::RwLockReadGuard<'_, HashMap<String, Arc<NodeState>>> {
@@ -784,6 +817,7 @@ fn read_nodes(
     }
 }
 
+#[cfg(not(repe_verif))]
 fn write_nodes(
     nodes: &Arc<RwLock<HashMap<String, Arc<NodeState>>>>,
 ) -> std::sync::RwLockWriteGuard<'_, HashMap<String, Arc<NodeState>>> {
